@@ -12,6 +12,8 @@ pub struct Program {
     /// the member list of the message (text between the braces)
     pub body: String,
     pub features: BTreeSet<&'static str>,
+    /// shapes the tape asked for that were left out because a recorded finding covers them
+    pub excluded: Vec<&'static str>,
 }
 
 struct B<'a> {
@@ -21,6 +23,9 @@ struct B<'a> {
     n: usize,
     aux: Vec<String>,
     feats: BTreeSet<&'static str>,
+    /// VERIF_PROBE=1: do not steer around the recorded findings
+    no_avoid: bool,
+    pub excluded: Vec<&'static str>,
 }
 
 const PLAIN: &[&str] = &["u8", "u16", "u32", "u64", "i32", "f32", "Bool", "Bool32", "Guid", "PackedGuid", "CString", "SizedCString", "Level", "Level16", "Level32", "Gold", "Seconds", "Milliseconds", "Spell", "Spell16", "Item", "DateTime"];
@@ -92,11 +97,17 @@ impl<'a> B<'a> {
     }
 
     fn struct_def(&mut self) -> String {
+        self.struct_def_of(false)
+    }
+
+    /// `fixed_size`: only members of constant size (recorded finding: a fixed array T[n] of a struct with a
+    /// variable-sized member does not compile, its `const fn size()` iterates)
+    fn struct_def_of(&mut self, fixed_size: bool) -> String {
         let name = self.type_name("Struct");
         let count = 1 + self.next() % 3;
         let mut text = format!("struct {} {{\n", name);
         for _ in 0..count {
-            let ty = ["u8", "u16", "u32", "f32", "Guid", "CString", "PackedGuid"][self.next() % 7];
+            let ty = if fixed_size { ["u8", "u16", "u32", "f32", "Guid", "u64", "u8"][self.next() % 7] } else { ["u8", "u16", "u32", "f32", "Guid", "CString", "PackedGuid"][self.next() % 7] };
             let n = self.name("s");
             text.push_str(&format!("    {} {};\n", ty, n));
         }
@@ -113,8 +124,12 @@ impl<'a> B<'a> {
 
     fn members(&mut self, count: usize, depth: usize, indent: &str) -> String {
         let mut out = String::new();
+        let mut constants = 0;
         for _ in 0..count {
             let k = self.next() % 14;
+            if k == 3 {
+                constants += 1;
+            }
             match k {
                 0 | 1 | 2 | 13 => out.push_str(&self.plain(indent)),
                 3 => {
@@ -186,7 +201,8 @@ impl<'a> B<'a> {
                     let (fname, es) = self.flag_def();
                     let n = self.name("f");
                     out.push_str(&format!("{}{} {};\n", indent, fname, n));
-                    if depth < 2 {
+                    // recorded finding of C07: flag ifs inside a branch do not compile (use of moved value): top level only
+                    if depth == 0 || (depth < 2 && self.no_avoid) {
                         self.feats.insert("flag-if");
                         let k = 1 + self.next() % es.len().min(2);
                         let inner_indent = format!("{}    ", indent);
@@ -206,9 +222,18 @@ impl<'a> B<'a> {
                 8 => {
                     self.feats.insert("fixed-array");
                     let n = self.name("fa");
-                    let el = if self.next() % 5 == 0 {
+                    // recorded findings: inside a branch, fixed arrays of Guid / PackedGuid / CString / Spell / structs do not compile
+                    let el = if depth >= 1 && !self.no_avoid {
+                        self.excluded.push("non-integer-fixed-array-in-branch");
+                        ["u8", "u16", "u32", "u64"][self.next() % 4].to_string()
+                    } else if self.next() % 5 == 0 {
                         self.feats.insert("struct-array");
-                        self.struct_def()
+                        if self.no_avoid {
+                            self.struct_def()
+                        } else {
+                            self.excluded.push("fixed-array-of-variable-sized-struct");
+                            self.struct_def_of(true)
+                        }
                     } else {
                         ELEM[self.next() % ELEM.len()].to_string()
                     };
@@ -235,6 +260,12 @@ impl<'a> B<'a> {
                 _ => out.push_str(&self.plain(indent)),
             }
         }
+        // recorded finding (C01 login8 CMD_AUTH_LOGON_PROOF_Server, C07 case branch-with-only-constant-members):
+        // a branch holding nothing but constants is neither read nor written
+        if depth >= 1 && constants == count && !self.no_avoid {
+            self.excluded.push("branch-with-only-constants");
+            out.push_str(&self.plain(indent));
+        }
         out
     }
 }
@@ -252,29 +283,47 @@ pub fn letters(mut n: usize) -> String {
 }
 
 pub fn build_program(tape: &[u8], idx: usize) -> Program {
-    let mut b = B { t: tape, p: 0, prefix: format!("v{}", letters(idx)), n: 0, aux: vec![], feats: BTreeSet::new() };
+    let mut b = B { t: tape, p: 0, prefix: format!("v{}", letters(idx)), n: 0, aux: vec![], feats: BTreeSet::new(), no_avoid: std::env::var("VERIF_PROBE").is_ok(), excluded: vec![] };
     let count = 1 + b.next() % 5;
     let mut body = b.members(count, 0, "    ");
+    let conditional = b.feats.contains("enum-if") || b.feats.contains("flag-if");
+    // recorded finding: a message whose only member is an enum with conditional members makes the generator panic
+    let top_level_fields = body.lines().filter(|l| l.starts_with("    ") && !l.starts_with("     ") && !l.trim_start().starts_with("if ") && !l.trim_start().starts_with('}') && !l.contains(" = ")).count();
+    if conditional && top_level_fields <= 1 && !b.no_avoid {
+        b.excluded.push("single-conditional-member");
+        let lead = b.plain("    ");
+        body = format!("{}{}", lead, body);
+    }
     match b.next() % 8 {
         0 | 1 => {
-            b.feats.insert("endless-array");
-            let n = b.name("rest");
-            let el = if b.next() % 4 == 0 {
-                b.feats.insert("struct-array");
-                b.struct_def()
+            // recorded finding: the reader of an endless array does not count conditional members before it
+            if conditional && !b.no_avoid {
+                b.excluded.push("endless-array-after-conditional");
             } else {
-                ELEM[b.next() % ELEM.len()].to_string()
-            };
-            body.push_str(&format!("    {}[-] {};\n", el, n));
+                b.feats.insert("endless-array");
+                let n = b.name("rest");
+                let el = if b.next() % 4 == 0 {
+                    b.feats.insert("struct-array");
+                    b.struct_def()
+                } else {
+                    ELEM[b.next() % ELEM.len()].to_string()
+                };
+                body.push_str(&format!("    {}[-] {};\n", el, n));
+            }
         }
         2 => {
-            b.feats.insert("optional");
-            let n = b.name("opt");
-            let c = 1 + b.next() % 2;
-            let inner = b.members(c, 2, "        ");
-            body.push_str(&format!("    optional {} {{\n{}    }}\n", n, inner));
+            // recorded finding: an optional block after conditional members does not compile
+            if conditional && !b.no_avoid {
+                b.excluded.push("optional-after-conditional");
+            } else {
+                b.feats.insert("optional");
+                let n = b.name("opt");
+                let c = 1 + b.next() % 2;
+                let inner = b.members(c, 2, "        ");
+                body.push_str(&format!("    optional {} {{\n{}    }}\n", n, inner));
+            }
         }
         _ => {}
     }
-    Program { aux: b.aux, body, features: b.feats }
+    Program { aux: b.aux, body, features: b.feats, excluded: b.excluded }
 }
